@@ -2,7 +2,7 @@
 from .. import common as C, structs as S, clientgen as G
 from .c07 import run_histories, tok
 
-LEAN_MODULES = ["ZvtVerif.Properties.C08"]
+LEAN_MODULES = ["ZvtVerif.Properties.C08", "ZvtVerif.Properties.Traffic"]
 TRANSLATED = {"structs", "sequences", "errors"}      # translated tables this property consumes (a translator problem elsewhere does not break its tie)
 ASSUMPTIONS = ["fault-free transport; requests are compared byte for byte with packets assembled by the independent reference encoder from the frozen specification table",
                "64-bit usize"]
